@@ -1010,20 +1010,15 @@ class NodeFor:
         )
 
     def __repr__(self):
+        identifiers = (
+            self.identifiers[0]
+            if len(self.identifiers) == 1
+            else "[" + ", ".join(self.identifiers) + "]"
+        )
+        what = f"{self.what} " if self.what else ""
         return (
-            "(for "
-            + (
-                self.identifiers[0]
-                if len(self.identifiers) == 1
-                else "[" + self.identifiers + "]"
-            )
-            + " in "
-            + self.what
-            + " "
-            + self.expression
-            + " do "
-            + self.block
-            + ")"
+            f"(for {identifiers} in {what}{self.expression} "
+            f"do {self.block})"
         )
 
     def collectVars(self, freeVars, boundVars, additionalBoundVars):
